@@ -190,7 +190,7 @@ Proof.
 Qed.
 
 (* WAIT: the timer ends a call that never sees enough bytes *)
-Definition timer_step (pick : bool) (r : rd) : step := {| s_ctx := false; s_timer := true; s_pick := pick; s_rd := r |}.
+Definition timer_step (pick : bool) (r : rd) : step := {| s_ctx := false; s_deadline := false; s_timer := true; s_pick := pick; s_rd := r |}.
 
 Theorem client_waits chunks w pick r tail :
   sc_steps sc = script_of chunks ++ repeat quiet w ++ timer_step pick r :: tail ->
@@ -221,11 +221,11 @@ Qed.
 End Do.
 
 (* ---------- segmentations of a reply ---------- *)
-Definition chunks_nonempty (chunks : list (nat * list N)) : Prop := Forall (fun c => snd c <> []) chunks.
+Definition chunks_nonempty (chunks : list chunk) : Prop := Forall (fun c => snd c <> []) chunks.
 
 Lemma payload_nonempty chunks : chunks_nonempty chunks -> chunks <> [] -> payload chunks <> [].
 Proof.
-  intros H Hne. destruct chunks as [|[w b] r]; [congruence|].
+  intros H Hne. destruct chunks as [|[[w d] b] r]; [congruence|].
   pose proof (Forall_inv H) as Hb. cbn [snd] in Hb. rewrite payload_cons.
   destruct b; [congruence|discriminate].
 Qed.
